@@ -79,6 +79,7 @@ def build_corpus(tier, rng):
         Variant("D", "named", [Field("u8", "x")], [msg("m-d"), raw("doc(hidden)"), det("d-d"), doc(" tail doc")])])))
     items.append(("case-spellings", Item("E", [Variant("A", "unit", [], [ser("mb"), tos("MB"), aci(False)]), Variant("B", "tuple", [Field("u8")], [ser("kb"), ser("Kb"), ser("KB"), aci(True, explicit=False)]),
                                                Variant("C", "unit", [], [DISABLED, ser("x"), ser("X"), det("never"), msg("never")])])))
+    G.resolve_names(ID, [it for _, it in items])
     for fam, it in items:
         k = c.add_def(it, family=fam, derives=["EnumMessage"])
         for j, (i, _, tag) in enumerate(T.RR.sample_values(it)):
